@@ -439,6 +439,12 @@ class MicrogridController(Component, Controller):
             self.sectioning_time,
             self.parent_sectioning_time,
         )
+        # The sectioning time of the parent network elapses as well
+        self.parent_sectioning_time = (
+            self.parent_sectioning_time - dt
+            if self.parent_sectioning_time > Time(0)
+            else Time(0)
+        )
         if (
             self.power_network.connected_line.circuitbreaker.is_open
             and self.sectioning_time <= Time(0)
@@ -524,6 +530,12 @@ class MicrogridController(Component, Controller):
         self.sectioning_time = max(
             self.sectioning_time,
             self.parent_sectioning_time,
+        )
+        # The sectioning time of the parent network elapses as well
+        self.parent_sectioning_time = (
+            self.parent_sectioning_time - dt
+            if self.parent_sectioning_time > Time(0)
+            else Time(0)
         )
         if (
             self.power_network.connected_line.circuitbreaker.is_open
